@@ -194,7 +194,14 @@ func (x Int8) Value() interface{} {
 }
 
 func (x Int8) Compare(y Comparable) int {
-	return int(int8(x) - y.Value().(int8))
+	a, b := int8(x), y.Value().(int8)
+	if a < b {
+		return -1
+	}
+	if a > b {
+		return 1
+	}
+	return 0
 }
 
 func (x Int8) Int64() int64 {
@@ -241,11 +248,12 @@ func (x UInt8) Value() interface{} {
 	return uint8(x)
 }
 
-func (x UInt8) Compare(b Comparable) int {
-	c := uint8(x) - b.Value().(uint8)
-	if c < 0 {
+func (x UInt8) Compare(y Comparable) int {
+	a, b := uint8(x), y.Value().(uint8)
+	if a < b {
 		return -1
-	} else if c > 0 {
+	}
+	if a > b {
 		return 1
 	}
 	return 0
@@ -296,7 +304,14 @@ func (x Int16) Value() interface{} {
 }
 
 func (x Int16) Compare(y Comparable) int {
-	return int(int16(x) - y.Value().(int16))
+	a, b := int16(x), y.Value().(int16)
+	if a < b {
+		return -1
+	}
+	if a > b {
+		return 1
+	}
+	return 0
 }
 
 func (x Int16) Int64() int64 {
@@ -343,11 +358,12 @@ func (x UInt16) Value() interface{} {
 	return uint16(x)
 }
 
-func (x UInt16) Compare(b Comparable) int {
-	c := uint16(x) - b.Value().(uint16)
-	if c < 0 {
+func (x UInt16) Compare(y Comparable) int {
+	a, b := uint16(x), y.Value().(uint16)
+	if a < b {
 		return -1
-	} else if c > 0 {
+	}
+	if a > b {
 		return 1
 	}
 	return 0
@@ -445,11 +461,12 @@ func (x UInt32) Value() interface{} {
 	return uint(x)
 }
 
-func (x UInt32) Compare(b Comparable) int {
-	c := uint(x) - b.Value().(uint)
-	if c < 0 {
+func (x UInt32) Compare(y Comparable) int {
+	a, b := uint(x), y.Value().(uint)
+	if a < b {
 		return -1
-	} else if c > 0 {
+	}
+	if a > b {
 		return 1
 	}
 	return 0
@@ -499,11 +516,12 @@ func (x Int64) Value() interface{} {
 	return int64(x)
 }
 
-func (x Int64) Compare(b Comparable) int {
-	c := int64(x) - b.Value().(int64)
-	if c < 0 {
+func (x Int64) Compare(y Comparable) int {
+	a, b := int64(x), y.Value().(int64)
+	if a < b {
 		return -1
-	} else if c > 0 {
+	}
+	if a > b {
 		return 1
 	}
 	return 0
@@ -553,11 +571,12 @@ func (x UInt64) Value() interface{} {
 	return uint64(x)
 }
 
-func (x UInt64) Compare(b Comparable) int {
-	c := uint64(x) - b.Value().(uint64)
-	if c < 0 {
+func (x UInt64) Compare(y Comparable) int {
+	a, b := uint64(x), y.Value().(uint64)
+	if a < b {
 		return -1
-	} else if c > 0 {
+	}
+	if a > b {
 		return 1
 	}
 	return 0
@@ -608,11 +627,12 @@ func (x Decimal64) Value() interface{} {
 	return float64(x)
 }
 
-func (x Decimal64) Compare(b Comparable) int {
-	c := float64(x) - b.Value().(float64)
-	if c < 0 {
+func (x Decimal64) Compare(y Comparable) int {
+	a, b := float64(x), y.Value().(float64)
+	if a < b {
 		return -1
-	} else if c > 0 {
+	}
+	if a > b {
 		return 1
 	}
 	return 0
